@@ -28,6 +28,8 @@ struct Case {
     long long eventNodes = 0, eventNodes2 = 0;
     long long nsPerNode = 1000;
     int strategy = 0; uint64_t schedSeed = 1;
+    bool limitStrength = false; int elo = 1500;
+    bool tbStop = false; long long clockCostNs = 0; long long stopSteps = 0; int hash = 4;
 };
 
 Value toJson(const Case& k) {
@@ -37,6 +39,7 @@ Value toJson(const Case& k) {
     v["wtime"] = k.wtime; v["btime"] = k.btime; v["winc"] = k.winc; v["binc"] = k.binc; v["movestogo"] = k.movestogo; v["movetime"] = k.movetime;
     v["event"] = k.event; v["event_nodes"] = k.eventNodes; v["event_nodes2"] = k.eventNodes2; v["ns_per_node"] = k.nsPerNode;
     v["strategy"] = k.strategy; v["sched_seed"] = (long long)k.schedSeed;
+    v["limit_strength"] = k.limitStrength; v["elo"] = k.elo; v["tb_stop"] = k.tbStop; v["clock_cost_ns"] = k.clockCostNs; v["stop_steps"] = k.stopSteps; v["hash"] = k.hash;
     return v;
 }
 Case fromJson(const Value& v) {
@@ -46,6 +49,8 @@ Case fromJson(const Value& v) {
     k.wtime = v.getInt("wtime", 0); k.btime = v.getInt("btime", 0); k.winc = v.getInt("winc", 0); k.binc = v.getInt("binc", 0); k.movestogo = v.getInt("movestogo", 0); k.movetime = v.getInt("movetime", 0);
     k.event = (int)v.getInt("event", 0); k.eventNodes = v.getInt("event_nodes", 0); k.eventNodes2 = v.getInt("event_nodes2", 0); k.nsPerNode = v.getInt("ns_per_node", 1000);
     k.strategy = (int)v.getInt("strategy", 0); k.schedSeed = (uint64_t)v.getInt("sched_seed", 1);
+    k.limitStrength = v.getBool("limit_strength", false); k.elo = (int)v.getInt("elo", 1500); k.tbStop = v.getBool("tb_stop", false);
+    k.clockCostNs = v.getInt("clock_cost_ns", 0); k.stopSteps = v.getInt("stop_steps", 0); k.hash = (int)v.getInt("hash", 4);
     return k;
 }
 
@@ -91,6 +96,7 @@ Case genCase(Choices& c) {
     k.bufferTime = c.chance(1, 3) ? 1000 : c.of(std::vector<int>{1, 10, 100, 999, 3000, 10000, c.range(1, 10000)});
     k.maxNps = c.chance(1, 4) ? c.of(std::vector<int>{1000, 10000, 100000, 1000000}) : 0;
     k.ponderOpt = c.chance(1, 3);
+    if (c.chance(1, 6)) { k.limitStrength = true; k.elo = c.of(std::vector<int>{-625, 800, 1349, 1350, 1800, 2099, 2100, 2600, 2900}); }
     auto& p = c.of(positions());
     k.fen = p.first;
     ref::Pos pos; ref::fromFEN(k.fen, pos);
@@ -121,6 +127,31 @@ Case genCase(Choices& c) {
     return k;
 }
 
+// A search that starts by generating the on-demand tablebase (<= 4 men, no pawns, Hash >= 8, a budget of at least 3 s so
+// that generation is attempted and polls the clock) is stopped after a generated number of scheduling steps, i.e. while
+// the generator is between two of its clock reads.  Every clock read costs virtual time here, so "bestmove follows the
+// stop within one polling interval" is observable for code that counts no nodes.
+Case genTbStop(Choices& c) {
+    Case k;
+    static const std::vector<std::string> roots = {"8/8/3r4/4k3/8/8/Q7/1K6 w - - 0 1", "8/8/8/4k3/8/8/Q7/1KR5 w - - 0 1", "8/8/2n5/4k3/8/8/R7/1K6 b - - 0 1",
+                                                   "8/8/3q4/4k3/8/8/Q7/1K6 w - - 0 1", "8/8/8/4k3/8/8/BN6/1K6 w - - 0 1", "8/8/8/4k3/8/8/Q7/1K6 w - - 0 1"};
+    k.fen = c.of(roots);
+    ref::Pos pos; ref::fromFEN(k.fen, pos);
+    k.legalMoves = (int)ref::legalMoves(pos).size(); k.whiteToMove = pos.wtm;
+    k.threads = c.chance(1, 2) ? 1 : c.range(2, 3);
+    k.hash = c.of(std::vector<int>{8, 16});
+    if (c.flip()) k.movetime = c.of(std::vector<long long>{3000, 5000, 30000, 100000});
+    else { k.wtime = k.btime = c.of(std::vector<long long>{400000, 2000000, 10000000}); k.movestogo = c.of(std::vector<long long>{0, 1, 10}); k.bufferTime = 1000; }
+    k.nsPerNode = c.of(std::vector<long long>{200, 1000, 5000});
+    k.tbStop = true;
+    k.clockCostNs = c.of(std::vector<long long>{20000, 100000, 500000});
+    k.stopSteps = c.of(std::vector<long long>{1, 3, 8, 20, 45, 90, (long long)c.range(0, 300)});
+    k.event = 1;
+    k.strategy = c.of(std::vector<int>{0, 0, 1});
+    k.schedSeed = c.raw() + 1;
+    return k;
+}
+
 coop::RunSpec specOf(const Case& k) {
     coop::RunSpec s;
     auto add = [&](const std::string& t, int cond, long long arg) { coop::ScriptCmd c; c.text = t; c.cond = cond; c.arg = arg; s.script.push_back(c); };
@@ -128,16 +159,20 @@ coop::RunSpec specOf(const Case& k) {
     add("setoption name BufferTime value " + std::to_string(k.bufferTime), coop::C_NOW, 0);
     add("setoption name MaxNPS value " + std::to_string(k.maxNps), coop::C_NOW, 0);
     add(std::string("setoption name Ponder value ") + (k.ponderOpt ? "true" : "false"), coop::C_NOW, 0);
-    add("setoption name Hash value 4", coop::C_NOW, 0);
+    add("setoption name Hash value " + std::to_string(k.hash), coop::C_NOW, 0);
+    add(std::string("setoption name UCI_LimitStrength value ") + (k.limitStrength ? "true" : "false"), coop::C_NOW, 0);
+    add("setoption name UCI_Elo value " + std::to_string(k.elo), coop::C_NOW, 0);
     add("isready", coop::C_NOW, 0);
     add("position fen " + k.fen, coop::C_NOW, 0);
     add(goLine(k), coop::C_NOW, 0);
-    if (k.event == 1) add("stop", coop::C_NODES, k.eventNodes);
+    if (k.tbStop) add("stop", coop::C_STEPS, k.stopSteps);
+    else if (k.event == 1) add("stop", coop::C_NODES, k.eventNodes);
     if (k.event == 2) add("ponderhit", coop::C_NODES, k.eventNodes);
     if (k.event == 3) { add("ponderhit", coop::C_NODES, k.eventNodes); add("stop", coop::C_NODES, k.eventNodes2); }
     add("quit", coop::C_BESTMOVES, 1);
     s.nsPerNode = k.nsPerNode; s.strategy = k.strategy; s.schedSeed = k.schedSeed; s.pctDepth = 2; s.pctMaxSteps = 500;
     s.maxSteps = 2000000;
+    s.clockReadCostNs = k.clockCostNs;
     return s;
 }
 
@@ -161,8 +196,11 @@ std::string judge(const Case& k, const coop::RunResult& r, bool& inconclusive, v
     const int nbtc = r.nodesBetweenTimeCheck > 0 ? r.nodesBetweenTimeCheck : 1000;
     // MaxNPS throttle: after each stop test the search sleeps until nodes/MaxNPS seconds have passed, i.e. one sleep
     // quantum = the nodes searched since the previous stop test divided by MaxNPS
-    const long long quantum = k.maxNps > 0 ? (long long)(nbtc + gSlackNodes) * 1000000000LL / k.maxNps + 1000000LL : 0;
-    const long long P = (long long)(nbtc + gSlackNodes) * k.nsPerNode + quantum + 1000000LL; // + 1 ms clock granularity
+    // UCI_LimitStrength throttles like MaxNPS (documented tiers of the engine: Elo < 1350: 10 000 n/s, < 2100: 100 000 n/s, else 750 000 n/s)
+    long long effNps = k.maxNps > 0 ? k.maxNps : 0;
+    if (k.limitStrength) { long long t = k.elo < 1350 ? 10000 : k.elo < 2100 ? 100000 : 750000; effNps = effNps > 0 ? std::min(effNps, t) : t; }
+    const long long quantum = effNps > 0 ? (long long)(nbtc + gSlackNodes) * 1000000000LL / effNps + 1000000LL : 0;
+    const long long P = (long long)(nbtc + gSlackNodes) * k.nsPerNode + quantum + 1000000LL + 3 * k.clockCostNs; // + 1 ms clock granularity (+ clock reads in tb-stop mode)
     // (1) limits handed to the search for this go (first report after the go) and by ponderhit
     const coop::LimitEvent* first = nullptr; const coop::LimitEvent* atHit = nullptr;
     for (auto& l : r.limits) {
@@ -191,6 +229,8 @@ std::string judge(const Case& k, const coop::RunResult& r, bool& inconclusive, v
         if (k.movetime == 0 && (k.whiteToMove ? k.winc : k.binc) > (k.whiteToMove ? k.wtime : k.btime)) st.cls("inc > clock");
         if (k.goPonder) st.cls("ponder");
         if (k.maxNps > 0) st.cls("MaxNPS");
+        if (k.limitStrength) st.cls("UCI_LimitStrength");
+        if (k.tbStop) st.cls("stop during a clock-polled phase (on-demand tablebase generation)");
         if (k.threads > 1) st.cls("Threads > 1");
     }
     // (2) delivery relative to go (non-ponder searches)
@@ -248,5 +288,6 @@ int main(int argc, char** argv) {
     }
     coop::warmUp();
     vh::runProp("timecontrols", a.cases, 1.0, [&](Choices& c) { runCase("timecontrols", genCase(c), st); });
+    vh::runProp("tb-stop", a.num("tb-cases", a.cases / 10), 1.0, [&](Choices& c) { runCase("tb-stop", genTbStop(c), st); });
     return vh::finish();
 }
